@@ -61,7 +61,9 @@ def check_case(spec: dict) -> dict:
     tree = spec["tree"]
     # with a level limit the architecture's modules are the truncated names; an alias for a module below the limit is
     # an alias for a module that does not exist
-    ev = make_evaluable(tree, [tuple(e) for e in spec.get("imports", [])], spec.get("level_limit"))
+    # the module list is handed over in the spec's order (scans with external libraries pass it through a set, so a
+    # module may well come before its parent)
+    ev = make_evaluable(spec.get("node_order") or tree, [tuple(e) for e in spec.get("imports", [])], spec.get("level_limit"))
     calls = [spec] + list(spec.get("more_calls", []))
     viols, labels, nontrivial = [], [], False
     for i, call in enumerate(calls):
@@ -158,6 +160,8 @@ def exh_shard(arg, stt, deadline) -> None:
                 stt.record(spec, check_case(spec), enumerated=True, sample=(mask % 31 == 3))
             for spacing in (None, 0.5):
                 spec = {"tree": tree, "aliases": aliases, "spacing": spacing, "extra": {"node_size": 10}}
+                if spacing is None:
+                    spec["node_order"] = list(reversed(tree))  # children before their parents
                 stt.record(spec, check_case(spec), enumerated=True, sample=(mask % 97 == 5 and spacing is None))
             # the same architecture drawn a second time with other alias texts for the same modules, and a third time
             # with one alias fewer
@@ -194,6 +198,8 @@ def cases(draw):
     spec = {"tree": tree, "aliases": aliases, "spacing": spacing, "extra": extra, "imports": [list(e) for e in imports]}
     if draw(st.integers(0, 3)) == 0:
         spec["level_limit"] = draw(st.integers(0, 2))
+    if draw(st.booleans()):
+        spec["node_order"] = list(draw(st.permutations(tree)))
     if draw(st.integers(0, 2)) == 0:
         more = []
         for _ in range(draw(st.integers(1, 2))):
